@@ -192,13 +192,13 @@ pub fn c20(tier: &str) -> i32 {
     out.set("traces_validated_against_impl", json!(programs));
     out.set("programs", json!(2 * N_SHAPES));
     out.set("seeds", json!(seeds));
-    out.set("rule", json!("every word of length 1..4 over field kinds {A, B, N(ested derived set)} plus 14 shapes of 5..8 fields, for both derive macros; two consecutive update calls with a step in between; log of (tag, environment fingerprint, draw), final orders and next generator draw compared with the flattened hand-written calls"));
+    out.set("rule", json!("every word of length 1..4 over field kinds {A, B, N(ested derived set)} plus 14 shapes of 5..8 fields, and every word of length 1..3 plus two long shapes re-declared with six syntactic decorations (field attributes incl. #[rustfmt::skip] / #[cfg(all())] / doc comments, struct attributes around the derive, mixed visibilities, type paths and parenthesised types, raw identifiers, a macro_rules! template passing the member types as `ty` fragments), for both derive macros; two consecutive update calls with a step in between; log of (tag, environment fingerprint, draw), final orders and next generator draw compared with the flattened hand-written calls"));
     for s in samples {
         out.push("samples", s);
     }
     for (sig, d, r) in fails {
         out.fail_other(&sig, d, r);
     }
-    out.assumptions = vec!["struct shapes are limited to named-field structs of probe agents and nested derived sets".into()];
+    out.assumptions = vec!["struct shapes are limited to named-field, non-generic structs of probe agents and nested derived sets".into()];
     out.finish()
 }
